@@ -714,7 +714,7 @@ func RunCheck(run *ev.Run, prop string) {
 	if ev.Tier() == "thorough" {
 		plans = []plan{{lp + "/deleg", 6, 7 * time.Minute}, {lp + "/prov", 6, 7 * time.Minute}}
 	} else {
-		plans = []plan{{lp + "/deleg", 4, 28 * time.Second}, {lp + "/prov", 4, 28 * time.Second}}
+		plans = []plan{{lp + "/deleg", 4, 60 * time.Second}, {lp + "/prov", 4, 60 * time.Second}}
 	}
 	exh := true
 	var bounds []string
